@@ -202,6 +202,14 @@ OnAlloc(e) ==
        \cup Chk(~(ok /\ stackLike /\ e.ups = 0 /\ e.cap0 >= 0 /\ (o.fam # "stack" \/ e.b = o.curblk)) \/
                   (e.cap0 - e.cap1 >= e.len + 2 * fence /\ e.cap0 - e.cap1 < e.len + 2 * fence + Max(e.al, 1)),
                 "C18", "StackCapacityMovesExactly", <<o.fam, e.cap0, e.cap1, e.len, e.al>>)
+       \* a collection carves a reservation off its block for the bucket that ran empty: what leaves capacity_left()
+       \* arrives in pool_capacity_left() of that bucket, less than one node, the alignment padding and the fences short
+       \cup Chk(~(o.fam = "coll" /\ o.type # "small" /\ ok /\ e.op = "n" /\ e.ups = 0 /\ e.cap0 > e.cap1 /\ e.fn0 >= 0 /\ e.fn1 >= 0)
+                  \/ LET ns == NodeUpper(o, e.sz)
+                         moved == e.cap0 - e.cap1
+                         arrived == (e.fn1 - e.fn0 + 1) * ns
+                     IN arrived <= moved /\ moved < arrived + ns + 16 + 2 * fence,
+                "C18", "ReservationArrivesInBucket", <<o.type, o.bd, e.sz, e.cap0, e.cap1, e.fn0, e.fn1>>)
        \* a request that failed without obtaining a block consumed nothing: the figures stay as they were
        \* (a memory_stack that moved on to a cached block before it failed, and a collection that handed the rest
        \* of its block to the bucket before its source refused, did consume something: cap1 # cap0 there)
